@@ -218,3 +218,39 @@ Proof.
   intros l x C H. destruct (content_decomp l) as [t [Ht _]].
   rewrite H in Ht. cbn in Ht. eauto.
 Qed.
+
+(* ---- content of a suffix of a line, without assumptions on the bases ---- *)
+
+Lemma strip_last_skipn : forall k (c : nat) a,
+  (c < length (strip_last k a))%nat -> strip_last k (skipn c a) = skipn c (strip_last k a).
+Proof.
+  induction c as [|c IH]; intros a H; [reflexivity|].
+  destruct a as [|x a']; [cbn in H; lia|].
+  destruct a' as [|y a''].
+  - cbn in H. destruct (x =? k); cbn in H; lia.
+  - change (strip_last k (x :: y :: a'')) with (x :: strip_last k (y :: a'')) in *.
+    cbn [skipn]. apply IH. cbn [length] in H. lia.
+Qed.
+
+Lemma content_proper : forall l ls, proper (l :: ls) ->
+  exists x, nolf x /\ (l = x \/ l = x ++ [LF]) /\ content l = strip_last CR x.
+Proof.
+  intros l ls H. inversion H as [|x Hx Hne|x ls' Hx Hls]; subst.
+  - exists l. split; [assumption|]. split; [now left|]. unfold content.
+    now rewrite (strip_last_notin LF l Hx).
+  - exists x. split; [assumption|]. split; [now right|]. unfold content. now rewrite strip_last_snoc.
+Qed.
+
+Lemma content_skipn_proper : forall l ls (c : nat),
+  proper (l :: ls) -> (c < length (content l))%nat -> content (skipn c l) = skipn c (content l).
+Proof.
+  intros l ls c Hp Hc.
+  destruct (content_proper l ls Hp) as [x [Hx [[E|E] EC]]]; rewrite EC in *; subst l.
+  - unfold content. assert (Hs : nolf (skipn c x)).
+    { intros Hin. apply Hx. rewrite <- (firstn_skipn c x). apply in_or_app. now right. }
+    rewrite (strip_last_notin LF _ Hs). now apply strip_last_skipn.
+  - assert (Hle : (c <= length x)%nat).
+    { destruct (strip_last_decomp CR x) as [t [Ht _]]. rewrite Ht, app_length. lia. }
+    rewrite skipn_app_le by exact Hle. unfold content. rewrite strip_last_snoc.
+    now apply strip_last_skipn.
+Qed.
